@@ -65,9 +65,11 @@ IVMSet(v, e) == Idle /\ (v \in vms) # e /\ VMSet(v, e) /\ UNCHANGED ivars
 \* watch semantics (E3): a block is re-created only after the deletion of its predecessor was delivered
 IBlockCreate(b, aff) == Idle /\ b \notin DOMAIN view /\ BlockCreate(b, aff) /\ UNCHANGED ivars
 IBlockDelete(b) == Idle /\ BlockDelete(b) /\ UNCHANGED ivars
+\* assumption E4: a handle belongs to one node (it names a container sandbox, or a node's tunnel device)
+HandleFor(ch, node) == ch.handle \o "@" \o node
 IAssign(b, ip, ch, node) ==
     /\ Idle /\ b \in DOMAIN store /\ store[b].seqno < MaxSeq
-    /\ Assign(b, ip, ch.handle, ch.kind, ch.owner, node) /\ UNCHANGED ivars
+    /\ Assign(b, ip, HandleFor(ch, node), ch.kind, ch.owner, node) /\ UNCHANGED ivars
 IFree(b, ip) == Idle /\ b \in DOMAIN store /\ store[b].seqno < MaxSeq /\ Free(b, ip) /\ UNCHANGED ivars
 
 \* onBlockUpdated / onBlockDeleted
